@@ -408,9 +408,13 @@ class Step:
                 cur, par = par, self.tu.parent.get(id(par))
         terms = [self.term(a, st) for a in args]
         texts = [self.resolve(a, st) for a in args]
-        for p, t, x in zip(ps, terms, texts):
+        for p, t, x, a in zip(ps, terms, texts, args):
             st.env[p.get("id")] = t
             st.env[("txt", p.get("id"))] = x
+            st.env.pop(("addr", p.get("id")), None)
+            obj = self.pointee(a, st)
+            if obj is not None:
+                st.env[("addr", p.get("id"))] = obj
         st.nser += 1
         st.frames.append((node, call, name, st.nser))
         st.ret, st.rtruth, st.rets = None, None, None
@@ -424,6 +428,48 @@ class Step:
         st.env[("rets", id(call))] = st.rets
         st.ret, st.rtruth, st.rets = None, None, None
         return node
+
+    def pointee(self, a, st):
+        """Text of the object a pointer-valued expression points to, when that is the same object whatever
+        happened before: `&g.m.n` / `&g.a[3]` for a file-scope object g (an address constant), or a parameter /
+        local of a followed helper that was bound to such an address.  A store through `*p` is then a store to
+        that object.  None: not known that way."""
+        a = strip(a, casts=True)
+        i = ref_id(a)
+        if i is not None:
+            return st.env.get(("addr", i))
+        if not (kind(a) == "UnaryOperator" and a.get("opcode") == "&"):
+            return None
+        o = root = strip(kids(a)[0])
+        while True:
+            if kind(root) == "MemberExpr" and not root.get("isArrow"):
+                root = strip(kids(root)[0])
+            elif kind(root) == "ArraySubscriptExpr" and self.tu.fold(kids(root)[1]) is not None:
+                root = strip(kids(root)[0], casts=True)
+            else:
+                break
+        if kind(root) == "DeclRefExpr" and root.get("referencedDecl", {}).get("kind") == "VarDecl" \
+                and ref_id(root) in tu_globals(self.tu):
+            return ctext(o)
+        return None
+
+    def store_target(self, lhs, st):
+        """(declaration id, text) of the lvalue a store goes to; `*p` with p bound to the address of a
+        file-scope object (pointee) reads as that object.  A store through a helper's pointer parameter whose
+        argument is not resolved that way (and is not a call result, which the rules classify themselves)
+        cannot be attributed to an object: no verdict."""
+        if kind(lhs) == "UnaryOperator" and lhs.get("opcode") == "*":
+            pe = strip(kids(lhs)[0], casts=True)
+            obj = self.pointee(pe, st)
+            if obj is not None:
+                return None, obj, True
+            i = ref_id(pe)
+            if st.frames and i is not None and pe.get("referencedDecl", {}).get("kind") == "ParmVarDecl" \
+                    and st.env.get(i, ("expr",))[0] == "expr":
+                raise AnalysisError("%s(): %s() stores through its pointer parameter `%s`, bound to `%s`: not the address "
+                                    "of an object of the file -- unclassifiable" % (
+                                        self.fname, st.frames[-1][2], ctext(pe), st.env.get(("txt", i), "?")))
+        return ref_id(lhs), ctext(lhs), False
 
     def argtext(self, a, st):
         """Text of a call argument; inside a followed helper a parameter /
@@ -529,6 +575,11 @@ class Step:
             return st.env[i]
         if k == "CallExpr":
             return ("call", ctext(kids(e)[0]), txt)
+        if k == "ConditionalOperator" and len(kids(e)) == 3 and not has_write(e):
+            # c ? a : b with c decided for the octet of this path (e.g. by a constant argument of a followed helper)
+            c = self.ev(kids(e)[0], st, self._v)
+            if c is not None:
+                return self.term(kids(e)[1 if c else 2], st)
         return ("expr", txt)
 
     def lhs_shape(self, lhs, st):
@@ -721,9 +772,10 @@ class Step:
                     if e[2] is None:
                         continue
                     lhs, rhs, lid, ltxt = None, e[2], e[1].get("id"), e[1].get("name")
+                    via = False
                 else:
                     lhs, rhs = e[1], e[2]
-                    lid, ltxt = ref_id(lhs), ctext(lhs)
+                    lid, ltxt, via = self.store_target(lhs, snap)
                 t = self.term(rhs, snap)
                 if lhs is not None and self.is_subject(lhs):
                     if t[0] == "octet" and t[2] == st.pos:
@@ -745,9 +797,13 @@ class Step:
                 elif lid is not None and (lid not in self.params):
                     st.env[lid] = t
                     st.env[("txt", lid)] = self.resolve(rhs, snap)
+                    st.env.pop(("addr", lid), None)
+                    obj = self.pointee(rhs, snap)
+                    if obj is not None:
+                        st.env[("addr", lid)] = obj
                     st.events.append(("local", ltxt, t, node.id, line))
                 else:
-                    st.events.append(("store", ltxt, t, node.id, line, self.lhs_shape(lhs, snap)))
+                    st.events.append(("store", ltxt, t, node.id, line, None if via else self.lhs_shape(lhs, snap)))
                 self.invalidate(st, ltxt)
                 self.carry_truth(st, snap, lhs if tag == "store" else e[1], ltxt, rhs, t)
             elif tag == "compound":
@@ -2385,7 +2441,7 @@ def r4_dispatch(L, tu, tag):
               [(pn[0], pn)], desc, line=line)
 
 
-def r4_queue_scan(L, tu, tx):
+def r4_queue_scan(L, tu, tx, tag="", histories_held=False):
     """Lower DLCI first: decided on the walked paths of the idle part of
     sercomm_drv_pull, not on where the tests are written.  The k-th
     execution of the dequeue is followed under both outcomes (NULL / a
@@ -2393,7 +2449,16 @@ def r4_queue_scan(L, tu, tx):
     one (counter opaque after the increment) stands for every later one.
     The scan may be written in sercomm_drv_pull itself or in a helper it
     calls: the walked paths of the pull step run through followed helpers,
-    so the same questions are asked of the same paths either way."""
+    so the same questions are asked of the same paths either way.
+
+    Where the scan starts: `lower DLCI numbers first` needs the scan to begin at an index s below which every
+    queue is empty - 0 is such an index whatever the history.  A start index that is not a constant (a
+    remembered 'first possibly busy queue') is right exactly when the code that maintains it keeps that
+    invariant over every sendmsg / pull interleaving: that is a property of the histories, decided by
+    evaluating them (C06.R14: wire order at every opening flag, with histories that queue below and above the
+    remembered index).  With `histories_held` (every R14 history of this build evaluated and in order) the
+    non-constant start is an 'open' structural record; without it there is no verdict here (and R14 has
+    reported the history that goes wrong)."""
     R = "C06.R4"
     step = tx.step
     # the dequeue: in the step function or in a helper whose statements the step follows
@@ -2498,7 +2563,7 @@ def r4_queue_scan(L, tu, tx):
     L.ob(R, F, TX_FN, "a message is dequeued only when no message is in progress", "msgb_dequeue unreachable while %s is set" % TXM,
          "reachable" if busy else "unreachable", not busy, line)
     # start of the scan
-    first, shortcuts, nidle = set(), [], 0
+    first, shortcuts, nidle, hints = set(), [], 0, set()
     for p in walk_scan([False]):
         at = [e for e in p.events if e[0] == "at" and e[1] == 1]
         if at:
@@ -2515,6 +2580,7 @@ def r4_queue_scan(L, tu, tx):
                 continue
             else:
                 first.add("not constant")
+                hints.add("unknown" if t is None else ctext_term(t))
         elif not truncated(p.events):
             # no dequeue on this path: every queue was skipped as empty / the counter ran out ...
             forks = [e for e in p.events if e[0] == "fork" and len(e) > 3]
@@ -2526,7 +2592,15 @@ def r4_queue_scan(L, tu, tx):
                 shortcuts.append((p, other))
             nidle += 1
     if "not constant" in first:
-        raise AnalysisError("%s(): first queue index `%s` is not a constant -- unclassifiable" % (SCAN_FN, iv))
+        msg = "%s(): first queue index `%s` is not a constant -- unclassifiable" % (SCAN_FN, iv)
+        if histories_held is not True:
+            raise AnalysisError(msg)
+
+        def start_not_proven():
+            raise AnalysisError(msg + " (starts at %s; that every queue below is empty then was decided on the "
+                                "C06.R14 histories only)" % sorted(hints))
+        L.structural("C06.R4 start of the priority scan in %s [%s]" % (SCAN_FN, tag), start_not_proven)
+        first.discard("not constant")
     if shortcuts:
         L.stage(r9_idle_summary, L, tu, tx, SCAN_FN, walk_scan, shortcuts, line)
     # after an empty queue (first and every later iteration)
@@ -2570,7 +2644,7 @@ def r4_queue_scan(L, tu, tx):
                                 % (SCAN_FN, iv, desc))
     L.ob(R, F, TX_FN, "transmit queues are scanned in ascending DLCI order starting at queue 0 (lower DLCI first)",
          "first index 0; +1 after every empty queue", "first index %s; counter updates %s" % (sorted(first, key=str), desc),
-         first == {0} and bool(steps) and steps <= good_step, line)
+         first <= {0} and bool(first or hints) and bool(steps) and steps <= good_step, line)
     L.require(R, F, TX_FN, "every queue is examined: without a message the scan ends only behind the last queue "
               "(index %d)" % (ext - 1), [], sorted(set(early)), line=line)
     # after a message was found (first and every later iteration)
@@ -3848,6 +3922,11 @@ class RxFold(MsgbEval):
             if isinstance(bv, int) and bv == 0:
                 raise AnalysisError("receive fold: member `%s` read through a null pointer" % ctext(e))
             return ("unk",)
+        if kind(e) == "UnaryOperator" and e.get("opcode") == "*":
+            # *p with p the address of a member of the state object (a helper handed `&sercomm.rx.dlci`)
+            pv = self.ev(tu, kids(e)[0], env, depth)
+            if _sym(pv) and pv[1].startswith("g:") and pv[2] == 0:
+                return ("g", pv[1][2:])
         return MsgbEval.lv(self, tu, e, env, depth)
 
     def load(self, loc, env):
@@ -4447,6 +4526,8 @@ class MultiTx(TxFold):
                 pv = _vadd(self.ev(tu, a, env, depth), self.ev(tu, b, env, depth))
             if _mid(pv, "buf") is not None:
                 return ("mem", pv)
+            if k == "UnaryOperator" and _sym(pv) and pv[1].startswith("g:") and pv[2] == 0:
+                return ("g", pv[1][2:])
             if _sym(pv) and pv[1] == "dead":
                 raise AnalysisError("history fold: `%s` accesses a released message" % ctext(s))
             return ("out",) if pv == ("@", "out", 0) else ("unk",)
@@ -4569,7 +4650,7 @@ def r14_tx_histories(L, tu, mtu, tag, size):
     free = [d for d in range(256) if probe.call(REG, [d, ("@", "handler", d)]) == 0]
     if len(free) < 3:
         raise AnalysisError("history fold: %s() accepts fewer than 3 DLCIs" % REG)
-    lo, mid, hi = free[0], free[len(free) // 2], free[-1]
+    lo, mid, hi = free[0], free[1], free[-1]       # two neighbours (an index kept one off shows between them) and a far one
     S, FRAME, ALL = "send", "pull until one more frame is delivered", "pull until idle"
     histories = (
         ("two messages pending on one DLCI, a lower DLCI queued between the closing flag of the first frame and the next pull",
@@ -4582,7 +4663,14 @@ def r14_tx_histories(L, tu, mtu, tag, size):
          [(S, hi, [0xD1]), (S, lo, [0xD2]), (S, hi, [0xD3]), (S, mid, []), (S, lo, [0xD5, 0x7D]), (S, mid, [0xD6]), (ALL,)]),
         ("queue, pull until idle, queue again in falling priority",
          [(S, mid, [0xE1]), (ALL,), (S, hi, [0xE2]), (S, mid, [0xE3]), (S, lo, [0xE4]), (ALL,), (S, hi, [0xE5]), (ALL,)]),
+        # a scan that starts at a remembered index: the index has to follow every enqueue below it, and only those
+        ("a high DLCI pulled until idle, then a lower and a higher DLCI queued",
+         [(S, hi, [0xF1]), (ALL,), (S, lo, [0xF2]), (S, hi, [0xF3]), (ALL,), (S, mid, [0xF4]), (S, hi, [0xF5]), (ALL,)]),
+        ("one frame of a high DLCI pulled, then a lower, a higher and the lowest DLCI queued before the next pull",
+         [(S, mid, [0xF6]), (FRAME,), (S, lo, [0xF7]), (S, hi, [0xF8]), (FRAME,), (S, mid, [0xF9]), (S, lo, [0xFA]),
+          (S, mid, []), (ALL,)]),
     )
+    held = True
 
     def show(h, d, p):
         return "dlci %s [%s]" % (_vtext(d), " ".join("??" if o is None else o if isinstance(o, str) else "%02X" % o for o in p[:8]))
@@ -4654,7 +4742,9 @@ def r14_tx_histories(L, tu, mtu, tag, size):
              "; ".join(show(*w) for w in want),
              ("; ".join(show(*g) for g in rx.delivered) or "no handler call") + " (%d octets pulled)" % state["pulled"],
              rx.delivered == want, tu.line(tu.func(PULL)))
-    L.floor(R, "interleaved histories folded through %s / %s (%s build)" % (SEND, PULL, tag), len(histories), 5)
+        held = held and rx.delivered == want
+    L.floor(R, "interleaved histories folded through %s / %s (%s build)" % (SEND, PULL, tag), len(histories), 7)
+    return held
 
 
 def r4_sendmsg(L, tu, mtu, tag):
@@ -6348,12 +6438,13 @@ def run(L, tier):
         exts[kindname] = L.stage(r11_table_extent, L, tu, tag)
         L.stage(r4_index_bounds, L, tu, tag)
         L.stage(r4_dispatch, L, tu, tag)
-        L.stage(r4_queue_scan, L, tu, tx)
         L.stage(r4_sendmsg, L, tu, mtu, tag)
         L.stage(r6_pull_contract, L, tu, tag, tx)
         rxvals[kindname] = L.stage(rx_return_values, L, tu, tag, rx)
         L.stage(r13_tx_fold, L, tu, mtu, tag, size)
-        L.stage(r14_tx_histories, L, tu, mtu, tag, size)
+        held = L.stage(r14_tx_histories, L, tu, mtu, tag, size)
+        # (after R14: a scan that starts at a remembered index is decided by the histories)
+        L.stage(r4_queue_scan, L, tu, tx, tag, held is True)
         K = L.stage(r2_tx, L, tu, tag, tx)
         if K is None:
             continue        # the transmitter's shape is already reported as violated
